@@ -5,6 +5,7 @@ import (
 	"crypto/aes"
 	"encoding/hex"
 	"encoding/json"
+	"math"
 	"strconv"
 	"strings"
 	"time"
@@ -161,7 +162,7 @@ func (f *Frequency) UnmarshalJSON(str []byte) error {
 	if err != nil {
 		return errors.Wrap(err, "parse float error")
 	}
-	*f = Frequency(mhz * 1000000)
+	*f = Frequency(math.Round(mhz * 1000000))
 	return nil
 }
 
@@ -182,7 +183,7 @@ func (p *Percentage) UnmarshalJSON(str []byte) error {
 	if err != nil {
 		return errors.Wrap(err, "parse float error")
 	}
-	*p = Percentage(perc * 100)
+	*p = Percentage(math.Round(perc * 100))
 	return nil
 }
 
